@@ -51,8 +51,30 @@ static program_t *uobj_prog = 0;	/* program of /c06/uobj: its ref is printed as 
 static object_t **anon = 0;		/* clones made by `clones n` */
 static int nanon = 0, capanon = 0;
 
+extern void clear_apply_cache (void);
+
+/* Freed memory must stay recognisable (poisoned, not handed out again) for the whole case: the 65 537-clone case
+ * frees about 30 MB. */
+const char *__asan_default_options (void)
+{
+  return "quarantine_size_mb=1024";
+}
+
 static void snapshot (long *o)
 {
+  /* The apply cache (src/apply.c) keeps a string reference on the function name of every entry, also of
+   * "no such function" entries ("create" of an object without create()), and evicts entries by a slot index
+   * computed from POINTER values: which strings it holds depends on the address-space layout of the run.
+   * Empty it before every measurement so that the string counters only see real holders.
+   * (C06_NOCLEAR=1 restores the old behaviour, C06_EVICT=<n> then empties the cache once, before the n-th
+   * measurement, like a slot collision would: used to demonstrate the sensitivity, see notes/C06.md.) */
+  {
+    static int nth = 0;
+    const char *nc = getenv ("C06_NOCLEAR"), *ev = getenv ("C06_EVICT");
+    nth++;
+    if (!nc || (ev && atoi (ev) == nth))
+      clear_apply_cache ();
+  }
   o[0] = num_arrays;
   o[1] = (long) total_array_size;
   o[2] = num_mappings;
